@@ -1,6 +1,7 @@
 import FpgoVerif.Proofs.C14Inv
 import FpgoVerif.Proofs.C14Progress
 import FpgoVerif.Proofs.C14Wait
+import FpgoVerif.Proofs.C14Run
 import FpgoVerif.Gen.Skeletons
 import FpgoVerif.Gen.C15Bodies
 /-! Property theorems for C14 — coroutines pair every YieldFrom with the matching YieldRef, in order, per caller.
@@ -59,6 +60,12 @@ theorem C14_progress {gen cap script sv s} (h : Reach gen cap script sv s) (hcap
 /-- non-vacuity of `C14_progress`: the initial state of a one-caller system has a request to make -/
 example : ∃ i, (init (mkScript [2]) none).pending i ≠ [] ∨ (init (mkScript [2]) none).waiting i = true :=
   ⟨0, Or.inl (by decide)⟩
+
+/-- the run the driver executes for a `pair` / `zero` / `donotyf` case (round-robin over all atoms) is a path of the
+    transition system: the invariants above hold of the very state `handle` evaluates its monitors on -/
+theorem C14_run_reach {gen cap script sv} (n fuel : Nat) :
+    Reach gen cap script sv (runRR gen cap n fuel (init script sv)) :=
+  runRR_reach n fuel _ Reach.init
 
 /-- non-vacuity: one caller with script [11, 12], generator "fixed": the run completes with both answers -/
 example : (let s := runRR (shapeGen "fixed" false) 5 1 40 (init (mkScript [2]) none)
